@@ -18,7 +18,7 @@ def tlc_histories(chk, num, depth, seed):
     """Behaviours of StoreMC by `tlc -simulate`; returns lists of op dicts."""
     import subprocess
 
-    out = tempfile.mkdtemp(prefix="eko-verif-sim-")
+    out = tempfile.mkdtemp(prefix="verif-eko-sim-")
     try:
         cmd = ["java", f"-Djava.io.tmpdir={out}", "-cp", TLA_CP, "tlc2.TLC", "-simulate", f"file={out}/tr,num={num}",
                "-depth", str(depth), "-workers", "1", "-seed", str(seed), "-metadir", f"{out}/m",
